@@ -89,6 +89,10 @@ func TestVerif_C14(t *testing.T) {
 		c14RunChild(f)
 		return
 	}
+	if f := os.Getenv("VERIF_C14_STRACE"); f != "" {
+		c14RunUnderStrace(f)
+		return
+	}
 	rep := vk.NewReport(t, "C14", "fault_enumeration")
 	rep.Rule = "file-backed databases opened through a fault-injecting database/sql driver; for a generated batch history and a chosen batch, every driver call index k (begin, each of the 5 prepares, every statement exec, commit) is failed in turn with {error returned by the driver, context cancelled at the call}, and sampled k (all k in the thorough tier) with {process killed at the call (child process, no rollback, parent reopens)}; after every faulted attempt, every retry, the final success and one more repetition a query panel must equal the model (failed => no-op, succeeded => applied once); close/reopen at seeded points between batches, followed by newer versions / deletion requests aimed at pre-restart rows; a few cases run through NewSQLiteHandler's retry loop; non-trivial = a fault that fired inside a batch that would have changed the database; distinct = distinct (fault kind, driver call kind, batch shape)"
 	rep.Assume("a batch is 'failed' iff insertEvents returned an error (or its process died before the commit call was made)")
@@ -437,6 +441,48 @@ func TestVerif_C14(t *testing.T) {
 		rep.Count("handler_cases", 1)
 	})
 
+	// faults below the driver: the same kind of histories in a child process whose
+	// pwrite64 / fsync / fdatasync system calls are failed by strace (EIO / ENOSPC at the
+	// N-th call), which reaches SQLite's own error paths (journal write, sync, commit)
+	if _, err := exec.LookPath("strace"); err != nil {
+		rep.Inconclusive("C14: strace not available, syscall-level fault injection skipped")
+	} else {
+		nS := vk.N(12, 160)
+		vk.ParallelW(8, nS, func(j int) {
+			r := vk.RNG("C14/strace", j)
+			sc := vk.Pick(r, []string{"pwrite64", "fsync,fdatasync", "pwrite64,fsync,fdatasync"})
+			errno := vk.Pick(r, []string{"EIO", "ENOSPC"})
+			when := 1 + r.IntN(60)
+			out := filepath.Join(dir, fmt.Sprintf("strace-%d.json", j))
+			cmd := exec.Command("strace", "-f", "-qq", "-o", "/dev/null", "-e", "trace="+sc, "-e", fmt.Sprintf("inject=%s:error=%s:when=%d", sc, errno, when), self, "-test.run", "^TestVerif_C14$")
+			cmd.Env = append(os.Environ(), "VERIF_C14_STRACE="+out, fmt.Sprintf("VERIF_C14_STRACE_CASE=%d", j), "VERIF_C14_STRACE_DIR="+dir)
+			cout, _ := cmd.CombinedOutput()
+			b, err := os.ReadFile(out)
+			var res c14StraceResult
+			if err != nil || json.Unmarshal(b, &res) != nil {
+				rep.Inconclusive(fmt.Sprintf("C14: strace child %d (%s %s when=%d) produced no result: %s", j, sc, errno, when, oneline(string(cout))))
+				return
+			}
+			rep.Eval(res.Verifications)
+			rep.Count("strace_runs", 1)
+			rep.Count("strace_batches", int64(res.Batches))
+			rep.Count("strace_insert_errors_seen", int64(res.InsertErrors))
+			rep.Count("strace_query_errors_seen", int64(res.QueryErrors))
+			if res.InsertErrors > 0 {
+				rep.Nontrivial(fmt.Sprintf("strace/%s/%s/%d", sc, errno, when))
+				rep.Seen("fault_points", "syscall:"+sc+":"+errno)
+			}
+			for _, v := range res.Violations {
+				rep.Violation("syscall-fault/"+v.Sig, fmt.Sprintf("with %s failing with %s at call %d: %s", sc, errno, when, v.Why), map[string]any{"history": v.History})
+			}
+		})
+		rep.Require(rep.Counter("strace_runs") >= int64(nS*2/3), "strace runs")
+		if rep.Counter("strace_insert_errors_seen") == 0 {
+			// strace counts calls per thread and the Go scheduler decides which thread makes
+			// them, so a run in which no injected fault surfaced is possible
+			rep.Inconclusive("C14: no injected syscall fault surfaced as an insertEvents error in this run")
+		}
+	}
 	rep.Require(rep.Counter("batches_fault_enumerated") >= int64(nHist*8/10), "fault-enumerated batches")
 	rep.Require(rep.Counter("faults_error") > 500 && rep.Counter("faults_cancel") > 500, "fault counts")
 	rep.Require(rep.Counter("kills") >= int64(nHist), "kill runs")
@@ -499,4 +545,109 @@ func c14CountCalls(ctx context.Context, path string, batch []*mocrelay.Event, d 
 	}
 	n, _, _ := plan.Disarm()
 	return n
+}
+
+type c14StraceViolation struct {
+	Sig, Why string
+	History  []string
+}
+
+type c14StraceResult struct {
+	Batches, InsertErrors, QueryErrors, Verifications int
+	Violations                                        []c14StraceViolation
+}
+
+// c14RunUnderStrace runs in a child process traced by strace: plain histories on
+// file-backed databases (no driver faults); whatever insertEvents returns decides
+// whether the model applies the batch; failed batches are retried.
+func c14RunUnderStrace(outfile string) {
+	var res c14StraceResult
+	defer func() {
+		b, _ := json.Marshal(res)
+		os.WriteFile(outfile, b, 0o644)
+		os.Exit(0)
+	}()
+	ctx := context.Background()
+	var caseNo int
+	fmt.Sscanf(os.Getenv("VERIF_C14_STRACE_CASE"), "%d", &caseNo)
+	dir := os.Getenv("VERIF_C14_STRACE_DIR")
+	for h := 0; h < 3; h++ {
+		r := vk.RNG("C14/strace/child", caseNo*16+h)
+		path := filepath.Join(dir, fmt.Sprintf("strace-%d-%d.db", caseNo, h))
+		d, err := c14Open(ctx, path)
+		if err != nil {
+			// the fault hit the schema set-up: nothing to judge in this history
+			continue
+		}
+		g := sqlHistoryGen(r)
+		g.BigEvery = 0
+		model := vk.NewSQLModel()
+		fg := &vk.FilterGen{R: r, Authors: g.Authors, TimeLo: g.TimeBase, TimeHi: g.TimeBase + g.TimeRange}
+		var hist []string
+		verify := func(stage string) bool {
+			live := model.Live()
+			for _, fs := range c14Panel(r, fg) {
+				var ans []*mocrelay.Event
+				var err error
+				for try := 0; try < 2; try++ {
+					if ans, err = queryEvent(ctx, d.db, d.seed, fs, NoLimit); err == nil {
+						break
+					}
+				}
+				if err != nil {
+					res.QueryErrors++
+					continue
+				}
+				res.Verifications++
+				if v := vk.CheckQuery(live, fs, ans); !v.OK {
+					res.Violations = append(res.Violations, c14StraceViolation{classifySQLAnswer(v.Sig, false, model, g.Offered, ans), "after " + stage + ": " + v.Why, hist})
+					return false
+				}
+			}
+			return true
+		}
+		for b := 0; b < 6; b++ {
+			var batch []*mocrelay.Event
+			for k, n := 0, 1+r.IntN(6); k < n; k++ {
+				batch = append(batch, g.Next())
+			}
+			fg.Events = g.Offered
+			if keyCollision(d.seed, g.Offered) {
+				break
+			}
+			res.Batches++
+			for attempt := 0; attempt < 3; attempt++ {
+				err := insertEvents(ctx, d.db, d.seed, batch)
+				if err == nil {
+					model.InsertBatch(batch)
+					hist = append(hist, fmt.Sprintf("batch %d attempt %d: ok %v", b, attempt, shortEvs(batch)))
+					if !verify("a successful batch") {
+						return
+					}
+					break
+				}
+				res.InsertErrors++
+				hist = append(hist, fmt.Sprintf("batch %d attempt %d: insertEvents failed: %s", b, attempt, oneline(err.Error())))
+				if !verify("a batch that failed with " + oneline(err.Error())) {
+					return
+				}
+			}
+			if b == 2 {
+				d.db.Close()
+				nd, err := c14Open(ctx, path)
+				if err != nil {
+					break
+				}
+				if nd.seed != d.seed {
+					res.Violations = append(res.Violations, c14StraceViolation{"reopen/seed-changed", "hash seed changed across reopen", hist})
+					return
+				}
+				d = nd
+				if !verify("close and reopen") {
+					return
+				}
+			}
+		}
+		d.db.Close()
+	}
 }
